@@ -232,7 +232,9 @@ def seeded(names, budget_s=60):
                 print(f"seeded {name}: patch does not apply: {r.stdout} {r.stderr}")
                 summary[name] = "patch-failed"
                 continue
-            props = os.environ.get("TSIM_SEEDED_PROPS", "").split() or meta["breaks"]
+            also = [a.split()[0] for a in meta.get("also_affects", [])]
+            props = os.environ.get("TSIM_SEEDED_PROPS", "").split() or (
+                meta["breaks"] + [a for a in also if a in orch.PROPS and a not in meta["breaks"]])
             res = {}
             for prop in props:
                 if prop not in orch.PROPS:
